@@ -129,7 +129,9 @@ Definition precond_compute_minpos := precond_with (nminpos N).
    pointSetMax_.setConstant(std::numeric_limits<Scalar>::lowest())  == -max() *)
 Definition precond_compute_lowest := precond_with (nneg N (nmaxval N)).
 
-(* the code of the current tree (this is what the driver runs against the implementation) *)
-Definition precond_compute := precond_compute_minpos.
+(* the code of the current tree (this is what the driver runs against the implementation).  The choice is tied
+   to the source by translate/tables/C20.json: the translator fails closed unless compute() initialises
+   pointSetMin_ with max() and pointSetMax_ with lowest(). *)
+Definition precond_compute := precond_compute_lowest.
 
 End Boxes.
